@@ -11,8 +11,8 @@ const SPEC: Spec = Spec {
         "refint (schoolbook add/sub on u64 limbs) is trusted; it is cross-checked against Python int on a transcript slice",
         "x86_64 only: the 32-bit digit build and the non-x86 adc/sbb fallbacks are not exercised",
     ],
-    bounds_quick: "S1 Dense(S5,4)^2; S2 Runs(S5,2,12)^2; S3 block-boundary lengths {4,5,6,9,10,11,14,15,16,20,21}x{+0,+1,+5,+6} with Runs(S5,2,.)",
-    bounds_thorough: "S1 Dense(S5,4)^2; S2 Runs(S5,3,17)^2 (panicking forms on the Runs(S5,3,10) sub-square); S3 as quick with Runs(S5,3,.) for the shorter operand",
+    bounds_quick: "S1 Dense(S5,4)^2; S2 Runs(S5,2,12)^2; S3 block-boundary lengths {4,5,6,9,10,11,14,15,16,20,21}x{+0,+1,+5,+6} with Runs(S5,2,.); S4 dense LCG digit strings, all length pairs <= 24 x 3x3 family members",
+    bounds_thorough: "S1 Dense(S5,4)^2; S2 Runs(S5,3,17)^2 (panicking forms on the Runs(S5,3,10) sub-square); S3 as quick with Runs(S5,3,.) for the shorter operand; S4 length pairs <= 48",
     hang_secs: 120,
     probes: Some(probes),
     max_workers: 16,
@@ -222,6 +222,29 @@ fn body(ctx: &mut Ctx) {
     let s2: Vec<Op> = alpha::runs(&alpha::SIGMA5, k, l).iter().map(|d| mk(d)).collect();
     square(ctx, "S2", &s2, pl, true);
     drop(s2);
+    // S4: dense LCG digits (no structure): every length pair x 3x3 members of the family
+    if ctx.space("S4") {
+        let lmax = tier.pick(24usize, 48usize);
+        let mut o = 0u64;
+        for la in 0..=lmax {
+            for lb in 0..=la {
+                let take = ctx.mine(o);
+                o += 1;
+                if !take {
+                    continue;
+                }
+                for sa in 0..3u64 {
+                    for sb in 3..6u64 {
+                        let a = mk(&alpha::lcg_digits(la, sa));
+                        let b = mk(&alpha::lcg_digits(lb, sb));
+                        pair(ctx, &a, &b, la <= 8, true);
+                        pair(ctx, &b, &a, la <= 8, true);
+                    }
+                }
+                ctx.sample(|| format!("dense LCG digits: len(a)={} len(b)={} x 3x3 family members, both orders", la, lb));
+            }
+        }
+    }
     // S3: block-boundary family
     if ctx.space("S3") {
         let kb = tier.pick(2, 3);
